@@ -436,7 +436,8 @@ impl Primitive {
             _ => (),
         }
 
-        self.equals(rhs).map(Primitive::Bool)
+        // two values of kinds that cannot even be compared are not the same thing
+        Ok(Primitive::Bool(self.equals(rhs).unwrap_or(false)))
     }
 
     /// Returns whether this primitive is numeric.
